@@ -125,6 +125,12 @@ def val_eq(I, a, b):
     a, b = unbox(a), unbox(b)
     if isinstance(a, RString) and isinstance(b, RString):
         return seq_eq(I, a.chars, b.chars)
+    if isinstance(a, (Agg, EnumV)) and isinstance(b, (Agg, EnumV)):
+        # the analysed crate's own PartialEq impl (hand-written or derived) decides
+        k = (a.ty.split("::")[-1], "PartialEq", "eq")
+        fn = I.prog.methods.get(k)
+        if fn is not None and fn not in I.prog.overloads:
+            return I.call_mir(fn, [Ref([a], 0), Ref([b], 0)])
     if is_sym(a) or is_sym(b):
         return a == b
     if isinstance(a, (bool, int)) and isinstance(b, (bool, int)):
@@ -200,7 +206,7 @@ def clone_val(I, v):
     if isinstance(v, RMap):
         return RMap(v.kind, [[clone_val(I, k), clone_val(I, x)] for k, x in v.entries])
     if isinstance(v, Closure):
-        return Closure(v.key, [clone_val(I, x) if not isinstance(x, Ref) else x for x in v.fields])
+        return Closure(v.key, [clone_val(I, x) if not isinstance(x, Ref) else x for x in v.fields], v.body)
     c = getattr(v, "clone", None)
     if c:
         return c(I)
@@ -210,6 +216,10 @@ def clone_val(I, v):
 def cmp_vals(I, a, b):
     """Ord::cmp -> -1/0/1 (forks on symbolic comparisons)"""
     a, b = unbox(a), unbox(b)
+    if isinstance(a, (Agg, EnumV)) and isinstance(b, (Agg, EnumV)):
+        fn = I.prog.methods.get((a.ty.split("::")[-1], "Ord", "cmp"))
+        if fn is not None:
+            return deref(I.call_mir(fn, [Ref([a], 0), Ref([b], 0)])).variant - 1
     if isinstance(a, RString) and isinstance(b, RString):
         for x, y in zip(a.chars, b.chars):
             if is_sym(x) or is_sym(y):
@@ -826,9 +836,13 @@ def std_clone(I, a, n):
     return clone_val(I, a[0])
 
 
-@model(r"^<(&)*(str|std::string::String|\[.*\]|std::path::Path) as std::borrow::ToOwned>::to_owned$")
+@model(r"^<.* as std::borrow::ToOwned>::to_owned$")
 def to_owned(I, a, n):
     v = deref(a[0])
+    if isinstance(v, (Agg, EnumV)):
+        fn = I.prog.methods.get((v.ty.split("::")[-1], "Clone", "clone"))
+        if fn is not None:
+            return I.call_mir(fn, [Ref([v], 0)])
     if isinstance(v, SliceRef):
         return RVec([clone_val(I, x) for x in v.view()])
     return clone_val(I, v)
